@@ -2,6 +2,7 @@
 package c05
 
 import (
+	"sync/atomic"
 	"testing"
 
 	"pgregory.net/rapid"
@@ -17,6 +18,11 @@ func gen(t *rapid.T) peng.Case {
 	if c.Threads < 2 {
 		c.Threads = 2
 	}
+	if rapid.IntRange(0, 3).Draw(t, "failSend") == 0 {
+		// one or two stream writes of the first manager fail (injected; nothing is written): streams are
+		// re-created under calls in flight, whose late replies must not reach anybody else
+		c.Mgrs[0].FailSendAt = rapid.SliceOfNDistinct(rapid.IntRange(1, 120), 1, 2, rapid.ID[int]).Draw(t, "failSendAt")
+	}
 	c.GoMaxProcs = rapid.SampledFrom([]int{0, 0, 2, 4}).Draw(t, "gomaxprocs")
 	c.Jitter = peng.GenJitter(t)
 	return c
@@ -31,6 +37,9 @@ func run(c peng.Case) vt.Verdict {
 	if v != nil {
 		return vt.Verdict{OK: false, Key: v.Key, Msg: v.Msg, History: r.Events, Classes: classes}
 	}
+	if len(r.Clients) > 0 && atomic.LoadInt32(&r.Clients[0].SendsFailed) > 0 {
+		classes = append(classes, "injected-send-failure")
+	}
 	res := vt.Pass(nontrivial, classes...)
 	res.Inconclusive = r.Late
 	return res
@@ -39,7 +48,7 @@ func run(c peng.Case) vt.Verdict {
 func TestProp(t *testing.T) {
 	vt.Main(t, vt.Spec[peng.Case]{
 		ID:           "C05",
-		Rule:         "rapid-generated concurrent programs: one or two client managers (their message ids collide), 3-6 servers, up to 4 overlapping configurations, 2-8 threads issuing 6-60 calls of all kinds with unique tokens; handlers release at once and answer after generated delays up to 6 ms while calls carry cancellations/deadlines of 1 us - 5 ms (replies arrive long after the call ended), in half of the cases seeded jitter at the statement-level yield points of the instrumented runtime; oracle: every reply shown to any quorum function and every RPC result carries the call's own token, sits under the node that produced it and equals what that handler produced (stamps: token, node, serial, payload hash), entries never change between invocations of non-streaming calls, no quorum function runs after its call returned; non-trivial (measured) = two calls overlapping in time on a shared node, or a reply produced after its call ended",
+		Rule:         "rapid-generated concurrent programs: one or two client managers (their message ids collide), 3-6 servers, up to 4 overlapping configurations, 2-8 threads issuing 6-60 calls of all kinds with unique tokens; handlers release at once and answer after generated delays up to 6 ms while calls carry cancellations/deadlines of 1 us - 5 ms (replies arrive long after the call ended), in a quarter of the cases one or two injected failures of single stream writes of the first manager (streams are re-created under calls in flight), in half of the cases seeded jitter at the statement-level yield points of the instrumented runtime; oracle: every reply shown to any quorum function and every RPC result carries the call's own token, sits under the node that produced it and equals what that handler produced (stamps: token, node, serial, payload hash), entries never change between invocations of non-streaming calls, no quorum function runs after its call returned; non-trivial (measured) = two calls overlapping in time on a shared node, or a reply produced after its call ended",
 		Gen:          gen,
 		Run:          run,
 		TrackCurrent: true,
